@@ -34,6 +34,7 @@ import (
 
 var (
 	verifTheNode    *verifNode
+	verifRealBrk    bool // H12a-brk: breaker.New instead of the harness Breaker
 	verifGetErr     error
 	verifGetCalls   int
 	verifErrNoNode  = errors.New("verif: no such redis")
@@ -103,6 +104,10 @@ func verifNewEnv(plain bool, mode int) *verifEnv {
 	e.n = &verifNode{}
 	e.b = &verifBreaker{}
 	e.r = &Redis{Addr: "verif:6379", Type: NodeType, brk: e.b}
+	if verifRealBrk {
+		e.r = New("verif:6379")
+		e.noBrk = true
+	}
 	e.ctx = &verifCtxT{context.Background()}
 	verifTheNode, verifGetErr, verifGetCalls = e.n, nil, 0
 	switch mode {
